@@ -413,6 +413,11 @@ impl Db {
             if let Some(with) = with {
                 for cte in with.cte_tables.iter() {
                     let name = cte.alias.name.value.clone();
+                    if created.contains(&name) {
+                        // what the engine itself answers for the unsplit query (two nodes of the relation
+                        // received the same 4-character content-hash name)
+                        return Err(format!("duplicate WITH table name: {}", name));
+                    }
                     let cols: Vec<String> = cte.alias.columns.iter().map(|c| c.value.clone()).collect();
                     let body = fix_query(&cte.query).to_string();
                     let collist = if cols.is_empty() {
